@@ -4,7 +4,7 @@ A *read description* is a plain JSON-able dict
 
     {'start': int, 'cigar': [[op, len], ...] | None, 'seq': str, 'quals': [int, ...], 'reverse': bool}
 
-(op codes as in SAM: 0=M 1=I 2=D 3=N 4=S).  `build_read` turns it into a pysam.AlignedSegment with an MD
+(op codes as in SAM: 0=M 1=I 2=D 3=N 4=S 5=H 6=P 7='=' 8=X).  `build_read` turns it into a pysam.AlignedSegment with an MD
 tag computed here from the reference string (pysam needs it for get_aligned_pairs(with_seq=True)).
 `aligned_pairs` is this module's own CIGAR walk (the oracles use it; they never ask pysam or the code
 under test where a base aligns).
@@ -36,7 +36,7 @@ def aligned_pairs(rd):
     r = rd['start']
     out = []
     for op, n in norm_cigar(rd):
-        if op == 0:
+        if op in (0, 7, 8):
             for _ in range(n):
                 out.append((q, r))
                 q += 1
@@ -45,6 +45,8 @@ def aligned_pairs(rd):
             q += n
         elif op in (2, 3):
             r += n
+        elif op in (5, 6):
+            pass                    # hard clip / padding: consume neither query nor reference
         else:
             raise ValueError(op)
     return out
@@ -53,7 +55,7 @@ def aligned_pairs(rd):
 def reference_end(rd):
     r = rd['start']
     for op, n in norm_cigar(rd):
-        if op in (0, 2, 3):
+        if op in (0, 2, 3, 7, 8):
             r += n
     return r
 
@@ -66,7 +68,7 @@ def md_tag(ref, rd):
     r = rd['start']
     seq = rd['seq']
     for op, n in norm_cigar(rd):
-        if op == 0:
+        if op in (0, 7, 8):
             for _ in range(n):
                 if seq[q].upper() == ref[r].upper():
                     run += 1
